@@ -455,12 +455,12 @@ Proof.
     destruct i as [i|], i' as [i'|]; simpl in Hi; try contradiction.
     + destruct Hi as [Ee Hv]. rewrite Ee. destruct (is_evaluating i').
       * apply srl_add_err. now apply IH.
-      * assert (HV : sa b (match is_value i with Some v => v | None => [] end) (match is_value i' with Some v => v | None => [] end)).
-        { destruct (is_value i), (is_value i'); simpl in Hv; try contradiction; [exact Hv|constructor]. }
+      * destruct (is_value i) as [v|], (is_value i') as [v'|]; simpl in Hv; try contradiction; [|now apply IH].
         apply IH; [exact Hnm|now apply ainsert_rel].
     + apply srl_call_l; [apply HW|]. apply srl_call_r; [apply HW|]. apply srl_emit_l. apply srl_emit_r.
       rewrite (ws_envs _ _ _ HW).
-      destruct (alookup n (w_envs Wo)) as [[| |d]|] eqn:L; try (apply srl_add_err; now apply IH).
+      destruct (alookup n (w_envs Wo)) as [[| |d]|] eqn:L;
+        try (apply srl_add_err; apply srl_imps_set; [split; [reflexivity|exact I]|]; now apply IH).
       sbind (sa b); [apply HEnv; eapply envs_nm; exact L|].
       intros v v' Hv. apply srl_imps_set; [split; [reflexivity|exact Hv]|].
       apply IH; [exact Hnm|now apply ainsert_rel].
@@ -497,7 +497,7 @@ Theorem ssim_env : forall f, Q_env f.
 Proof.
   induction f as [|f IH]; intros root name d Hnm.
   - rewrite !eval_env_O. apply srl_oof.
-  - rewrite !eval_env_S. cbv zeta. set (root' := if String.eqb root "" then name else root).
+  - rewrite !eval_env_S. cbv zeta. set (root' := if String.eqb root "" || String.eqb root "<yaml>" then name else root).
     apply srl_imps_set; [split; [reflexivity|exact I]|].
     apply (srl_bind (sa b) imp_res_sa).
     + apply srl_imports_go; [exact IH|exact Hnm|constructor].
